@@ -131,6 +131,14 @@ func runScenario(sc scenario) {
 	// arbitrary sequence numbers only on reliable transports without SRTP (SRTP derives its
 	// packet index from consecutive sequence numbers by design, RFC 3711)
 	t2 = rig.NewTraffic(2, rig.FlowPairs(desc), r, sc.Transport != "udp" && sc.Transport != "mcast" && !sc.TLS && sc.PubProto != "udp")
+	// packets reach the configured maximum packet size (1472 by default, minus the 10 bytes of
+	// SRTP overhead on secure sessions) exactly
+	for _, f := range t2.Flows {
+		f.MaxPacket = 1472
+		if sc.TLS {
+			f.MaxPacket -= 10
+		}
+	}
 	streamPath := "/stream"
 	var pub *rig.PubClient
 	if sc.Topology == "B" {
